@@ -75,16 +75,84 @@ def inspection_sites(rep):
         o.witness = {'input': "'/* a */ /* b */ select 1' vs '/* a */\\n/* b */ select 1'", 'reproduced': True}
 
 
+SPELL_WORDS = ['END IF', 'END LOOP', 'END WHILE', 'END FOR', 'END CASE', 'BEGIN', 'DECLARE', 'CASE', 'END', 'CREATE', 'LOOP', 'DO',
+               'IF', 'FOR', 'WHILE', 'CREATE OR REPLACE', 'SELECT']
+
+
+def _native_transition(state, ttype, value):
+    from sqlparse.engine.statement_splitter import StatementSplitter
+    sp = StatementSplitter()
+    for k, v in state.items():
+        if hasattr(sp, k):
+            setattr(sp, k, v)
+    try:
+        r = sp._change_splitlevel(ttype, value)
+    except Exception as e:      # noqa
+        r = 'raised %s' % type(e).__name__
+    return (r,) + tuple(getattr(sp, k, None) for k in ('_in_declare', '_in_case', '_is_create', '_begin_depth', 'level'))
+
+
+def replay_spelling(rep):
+    """a failed two-run obligation of _change_splitlevel[keyword spelling] is replayed natively: two spellings of one
+    keyword (other letter case / other inner whitespace) from the same splitter state"""
+    from pyvc.core import import_repo, FAILED
+    import_repo()
+    from sqlparse import tokens as T
+    states = [{}, {'_is_create': True}, {'_is_create': True, '_begin_depth': 1}, {'_is_create': True, '_in_declare': True},
+              {'_is_create': True, '_begin_depth': 1, '_in_case': 1}]
+    for ob in rep.obls:
+        if ob.status != FAILED or '[keyword spelling]' not in ob.id:
+            continue
+        found = None
+        for w in SPELL_WORDS:
+            for alt in (w.lower(), w.capitalize(), w.replace(' ', '  '), w.replace(' ', '\n'), w.replace(' ', '\t ')):
+                if alt == w:
+                    continue
+                for st in states:
+                    for tt in (T.Keyword, T.Keyword.DDL, T.Keyword.DML):
+                        a, b = _native_transition(st, tt, w), _native_transition(st, tt, alt)
+                        if a != b:
+                            found = {'input': ('spelling', w, alt, sorted(st.items()), str(tt)), 'failure':
+                                     '_change_splitlevel(%s, %r) -> %r but with %r -> %r (result, _in_declare, _in_case, '
+                                     '_is_create, _begin_depth, level) from state %r' % (tt, w, a, alt, b, st),
+                                     'reproduced': True}
+                            break
+                    if found:
+                        break
+                if found:
+                    break
+            if found:
+                break
+        if found:
+            ob.witness = found
+
+
 def run(rep):
     return generic.run_generic(
         rep, [('sqlparse.sql.Token.__init__', 'body'), (CSL, 'opaque token'), (CSL, 'keyword spelling')] + tc.NAV_FUNCS[:4],
-        structural=[regex_separators, inspection_sites],
+        structural=[replay_spelling, regex_separators, inspection_sites],
         assumptions=['alpha(value) = upper-cased value with inner whitespace collapsed (str.upper / str.split / str.join '
                      'uninterpreted, composed as in the code)',
+                     'the splitter transition is proved spelling-independent by a two-run contract (same state, two strings with '
+                     'the same alpha(), same result and same state afterwards)',
                      'the end-to-end statement (same tree shape for respelled scripts) is the bounded stand-in; the proved '
                      'part is per inspection site'],
         trusted=['CPython re engine', 'str.upper, str.split'])
 
 
 def replay(path):
+    import json
+    d = json.load(open(path))
+    inp = (d.get('witness') or {}).get('input')
+    if isinstance(inp, list) and inp and inp[0] == 'spelling':
+        from pyvc.core import import_repo
+        import_repo()
+        from sqlparse import tokens as T
+        tt = T.Keyword
+        for part in inp[4].split('.')[1:]:
+            tt = getattr(tt, part) if part != 'Keyword' else tt
+        st = {k: v for k, v in inp[3]}
+        a, b = _native_transition(st, tt, inp[1]), _native_transition(st, tt, inp[2])
+        print('%r -> %r ; %r -> %r' % (inp[1], a, inp[2], b))
+        return 1 if a != b else 0
     return generic.replay_generic('C11', path)
